@@ -175,7 +175,9 @@ fn deviate<G: CurveTag>(ch: &mut Choices, prog: &Program, commitments: &[G]) -> 
                 let com_terms: Vec<usize> = lc.iter().enumerate().filter(|(_, (v, _))| matches!(v, Var::Com(_))).map(|(i, _)| i).collect();
                 if !com_terms.is_empty() && ch.chance(150) {
                     // coefficient on a committed value: the constant stays what it was
-                    *base = Some(lc.clone());
+                    if base.is_none() {
+                        *base = Some(lc.clone());
+                    }
                     let t = com_terms[ch.below(com_terms.len())];
                     lc[t].1 = match &lc[t].1 {
                         Sc::C(ScalarSpec::One) => Sc::C(ScalarSpec::Small(2)),
